@@ -18,6 +18,8 @@ ASSUMPTIONS = ['consumers drain resource streams in order (rely P-seq); discharg
 
 from contracts import C10 as _K10   # noqa: E402  (ResourceMatcher: the contract every selector-taking step is checked against)
 
+from contracts.common import lazy_sym, lazy_nat   # noqa: E402
+
 ITEMS = [
     _K10._mk_matcher_item(),
     Item('printer.func', S.sym_printer, [], 'dataflows/processors/printer.py::printer.func'),
@@ -36,4 +38,7 @@ ITEMS = [
     Item('validate', K10.sym_validate, [], 'dataflows/processors/validate.py::validate.process_resource'),
     Item('pipelines', None, [('observer-transparency', N.nat_observers), ('observers-behind-a-pair', N.nat_observers_behind_a_pair)], None),
     Item('recorded-findings', None, [('bounded', KF.nat_findings_c05)], 'dataflows/processors/dumpers/dumper_base.py::DumperBase.process_resources'),
+    # what stream / checkpoint persist is the extended-JSON text of the row: its encoder is part of "captures the stream at its position"
+    Item('ejson.round-trip', lazy_sym('C07', 'sym_ejson_roundtrip'), [('differential', lazy_nat('C07', 'nat_ejson'))],
+         'dataflows/helpers/extended_json.py::CommonJSONEncoder.default'),
 ]
